@@ -47,7 +47,7 @@ type world struct {
 	r    *Rng
 	wi   int
 
-	fwd, counter, gasA, gasB, worker, outer, refunder, sd, creator, ctxr, balr common.Address
+	fwd, counter, gasA, gasB, worker, outer, refunder, sd, creator, ctxr, balr, gasr common.Address
 	erc20, staking, rcpt, nobody                                                common.Address
 	val                                                                         sdk.ValAddress
 	senders                                                                     []*itutiltypes.TestAccount
@@ -161,6 +161,7 @@ func newWorldNoCheck(t *testing.T, side *Sidecar, r *Rng, wi int) *world {
 	w.creator = addr("0x1000000000000000000000000000000000000f09")
 	w.ctxr = addr("0x1000000000000000000000000000000000000f0a")
 	w.balr = addr("0x1000000000000000000000000000000000000f0b")
+	w.gasr = addr("0x1000000000000000000000000000000000000f0c")
 	w.rcpt = addr("0x1000000000000000000000000000000000000b01")
 	w.nobody = addr("0x1000000000000000000000000000000000000b02")
 	w.staking = cpctypes.CpcStakingFixedAddress
@@ -200,6 +201,7 @@ func (w *world) placeContracts(c *Chain) {
 	put(w.creator, BuildCreator(InitCode(BuildCounter())), nil)
 	put(w.ctxr, buildCtxReader(), nil)
 	put(w.balr, buildCallerBalance(), nil)
+	put(w.gasr, buildGasReporter(), nil)
 	require.NoError(w.t, sdb.CommitMultiStore(false))
 }
 
@@ -221,6 +223,14 @@ func (w *world) replaceSelfDestruct() {
 func buildCtxReader() []byte {
 	a := NewAsm()
 	a.Op(0x43, 0x42, 0x01, 0x48, 0x01, 0x3a, 0x01) // NUMBER TIMESTAMP ADD BASEFEE ADD GASPRICE ADD
+	a.PushU(0).Op(OpMSTORE).PushU(32).PushU(0).Op(OpRETURN)
+	return a.Bytes()
+}
+
+// GAS as the very first instruction, returned: the gas limit the call runs with minus intrinsic gas minus 2.
+func buildGasReporter() []byte {
+	a := NewAsm()
+	a.Op(OpGAS)
 	a.PushU(0).Op(OpMSTORE).PushU(32).PushU(0).Op(OpRETURN)
 	return a.Bytes()
 }
